@@ -81,6 +81,12 @@ type Config struct {
 	RandScript   []byte // scripted answers for crypto/rand (cycled); nil = counter stream
 }
 
+// Config returns the configuration the execution ran under (recorded in replay artefacts).
+func (x *Exec) Config() Config { return x.cfg }
+
+// TraceFn, when set, receives one line per scheduling decision (debugging of replays).
+var TraceFn func(string)
+
 func DefaultConfig() Config {
 	return Config{MaxSteps: 400000, LockPoints: true}
 }
@@ -320,6 +326,16 @@ func (x *Exec) enabled(t *Thread) bool {
 	return t.pred == nil || t.pred()
 }
 
+// timerWithin reports whether a live timer is due within d of the current clock (d<=0: any).
+func (x *Exec) timerWithin(d int64) bool {
+	for _, tm := range x.timers {
+		if !tm.dead && (d <= 0 || tm.at-x.clock <= d) {
+			return true
+		}
+	}
+	return false
+}
+
 func (x *Exec) hasTimer() bool {
 	for _, tm := range x.timers {
 		if !tm.dead {
@@ -380,13 +396,19 @@ func (x *Exec) schedule(self *Thread, selfDone bool, label string) {
 			opts = append(normal, low...)
 		}
 		if len(opts) == 0 {
+			if TraceFn != nil {
+				TraceFn(fmt.Sprintf("step %d %s@%s nothing enabled, timers=%v", x.steps, self.Name, label, x.hasTimer()))
+			}
 			if x.fireTimer() {
 				continue
 			}
 			x.deadlock("deadlock")
 			x.park(self)
 		}
-		timerOpt := x.cfg.TimerFirst && x.hasTimer()
+		// "fire the earliest timer now" stands for the runnable threads being a little late, not
+		// for all of them standing still beyond the idle horizon: a timer that far away is not
+		// offered while something can run (it fires when nothing else can).
+		timerOpt := x.cfg.TimerFirst && x.timerWithin(x.cfg.IdleHorizon)
 		// "demote the running thread": from here on it runs only when nothing else can, until a
 		// later deviation picks it explicitly. One such deviation keeps a thread out of the way
 		// across any number of blocking operations of the others - the plain delay only skips it once.
@@ -419,9 +441,23 @@ func (x *Exec) schedule(self *Thread, selfDone bool, label string) {
 		}
 		if demoteOpt && idx == nopt-1 {
 			self.low = true
+			if TraceFn != nil {
+				TraceFn(fmt.Sprintf("step %d %s@%s demoted", x.steps, self.Name, label))
+			}
 			continue // re-evaluate: the first thread of normal priority is now the default
 		}
 		next := opts[idx]
+		if TraceFn != nil {
+			names := ""
+			for _, t := range opts {
+				names += t.Name
+				if t.low {
+					names += "(low)"
+				}
+				names += " "
+			}
+			TraceFn(fmt.Sprintf("step %d clock+%dms %s@%s -> %s   [%s] demoteOpt=%v timerOpt=%v", x.steps, (x.clock-startClock)/1e6, self.Name, label, next.Name, names, demoteOpt, timerOpt))
+		}
 		if idx > 0 && next.low {
 			next.low = false // picked explicitly: back to normal priority
 		}
